@@ -180,3 +180,111 @@ func VfC20_IDOrder() {
 	}
 	vfAssert("C20.id-order.ascending", asc)
 }
+
+// hC20Pos: index of the first occurrence of sub in s, or -1.
+func hC20Pos(s, sub string) int {
+	for i := 0; i+len(sub) <= len(s); i++ {
+		if s[i:i+len(sub)] == sub {
+			return i
+		}
+	}
+	return -1
+}
+
+// VfC20_TextualOrder: global variables, aliases, ifuncs and functions are
+// each printed in the order in which the input defines them - whatever their
+// names (symbolic, so any natural order among them), whatever the permutation
+// of the definitions, whatever separates them in the text (a new line, a
+// space, a tab: several definitions on one line are legal) and whatever the
+// map order of the translator; the entities of one kind keep their order also
+// when entities of the other kinds stand between them.
+//
+//vf:unwind 600
+//vf:shards 16
+func VfC20_TextualOrder() {
+	kind := vfChoice("kind", 4)
+	a, b, c := hC20Names("n")
+	names := [3]string{a, b, c}
+	seps := [...]string{"\n", " ", "\t", "\n\n"}
+	sep := seps[vfChoice("sep", len(seps))]
+	var defs [3]string
+	tail, mark := "", " ="
+	for i := 0; i < 3; i++ {
+		switch kind {
+		case 0:
+			defs[i] = "@" + names[i] + " = global i32 " + string(rune('1'+i))
+		case 1:
+			defs[i] = "declare void @" + names[i] + "(i32)"
+			mark = "("
+		case 2:
+			defs[i] = "@" + names[i] + " = alias i32, i32* @tgt"
+			tail = "@tgt = global i32 0"
+		default:
+			defs[i] = "@" + names[i] + " = ifunc void (), void ()* ()* @res"
+			tail = "declare void ()* @res()"
+		}
+	}
+	// an entity of another kind between the definitions
+	other := "@zzo = global i8 0"
+	if kind == 0 {
+		other = "declare void @zzo()"
+	}
+	perms := [6][3]int{{0, 1, 2}, {0, 2, 1}, {1, 0, 2}, {1, 2, 0}, {2, 0, 1}, {2, 1, 0}}
+	p := perms[vfChoice("perm", 6)]
+	src := defs[p[0]] + sep + other + sep + defs[p[1]] + sep + defs[p[2]]
+	if tail != "" {
+		if vfChoice("tail-first", 2) == 1 {
+			src = tail + sep + src
+		} else {
+			src = src + sep + tail
+		}
+	}
+	src += "\n"
+	vfMapOrder(vfChoice("maporder", 3))
+	m, err := ParseString("t.ll", src)
+	vfMapOrder(0)
+	vfReach("C20.textual-order")
+	vfObserveStr("src", src)
+	vfAssert("C20.textual.accepted", err == nil)
+	if err != nil {
+		return
+	}
+	// the module lists them in textual order
+	var listed []string
+	switch kind {
+	case 0:
+		for _, g := range m.Globals {
+			listed = append(listed, g.Name())
+		}
+	case 1:
+		for _, f := range m.Funcs {
+			listed = append(listed, f.Name())
+		}
+	case 2:
+		for _, x := range m.Aliases {
+			listed = append(listed, x.Name())
+		}
+	default:
+		for _, x := range m.IFuncs {
+			listed = append(listed, x.Name())
+		}
+	}
+	k := 0
+	inOrder := true
+	for _, n := range listed {
+		if n == "zzo" || n == "tgt" || n == "res" {
+			continue
+		}
+		if k < 3 {
+			inOrder = vfAnd(inOrder, n == names[p[k]])
+		}
+		k++
+	}
+	vfAssert("C20.textual.module-lists-in-textual-order", vfAnd(inOrder, k == 3))
+	// and prints them so
+	out := m.String()
+	p0 := hC20Pos(out, "@"+names[p[0]]+mark)
+	p1 := hC20Pos(out, "@"+names[p[1]]+mark)
+	p2 := hC20Pos(out, "@"+names[p[2]]+mark)
+	vfAssert("C20.textual.printed-in-textual-order", vfAnd(p0 >= 0, vfAnd(p0 < p1, p1 < p2)))
+}
